@@ -3,7 +3,7 @@ import json, os, random
 from vlib import *
 import pcase, lcase, grams, lgrams
 from pfamily import tlc_case
-from lfamily import tlc_lcase, run_product, tok_numbers
+from lfamily import tlc_lcase, run_product, tok_numbers, attach_construction, run_construct, run_nfaproduct
 import props_lalr, props_parser as PP, props_lexer as PL
 
 
@@ -128,7 +128,52 @@ def c10(tier):
         else:
             sig = "c10.table-not-equivalent-to-rules:" + c["id"]
         rep.failure(sig, "spec %s mode %d: %s" % (c["id"], j["m"] - 1, json.dumps(b)[:300]), PL.lreplay(c, None, {"product": b}))
+    # ---- the generator's own pipeline, stage by stage (LexConstruct.tla, NFAProduct.tla): Thompson NFA against the rules over
+    # all strings; subset construction, partition refinement, picked actions and merged ranges against the DFA lox built.
+    # The verdict of this property stays with TableObs / LexProduct above (what the emitted tables do); a disagreement here that
+    # those do not confirm means lox no longer builds its automata the way the model says -- reported as DRIFT, with the stage.
+    ccases, cjobs, cown = [], [], []
+    for c, d in zip(lacc, ld):
+        if not d["ok"]:
+            continue
+        try:
+            rec = attach_construction(tlc_lcase(c), c, d)
+        except Infra as e:
+            rep.note("DRIFT: " + str(e))
+            continue
+        ccases.append(rec)
+        for mi in range(len(rec["modes"])):
+            cjobs.append({"c": len(ccases), "m": mi + 1})
+            cown.append(c)
+    njobs_rules = len(cjobs)
+    for d, dmp in zip(real, rd):
+        if dmp["ok"]:
+            rec = attach_construction({"id": d}, {"id": d}, dmp)
+            ccases.append(rec)
+            for mi, n in enumerate(rec["nfa"]):
+                if len(n["states"]) <= 70:       # LexConstruct's set-of-subsets arithmetic is too slow in TLC beyond that
+                    cjobs.append({"c": len(ccases), "m": mi + 1})
+                    cown.append({"id": d})
+    cvs, rcons = run_construct(sc, ccases, cjobs, timeout=3000)
+    cby = {v["j"]: v for v in cvs}
+    if len(cby) != len(cjobs):
+        raise Infra("LexConstruct judged %d of %d jobs" % (len(cby), len(cjobs)))
+    STAGES = ("norm", "total", "bij", "onto", "acc", "ng", "nfa", "cover", "pick")
+    cdrift = [(cown[j], [k for k in STAGES if not v[k]]) for j, v in sorted(cby.items()) if not all(v[k] for k in STAGES)]
+    nbad, rnp = run_nfaproduct(sc, ccases, cjobs[:njobs_rules], timeout=3000)
+    ndrift = sorted({cown[b["j"]]["id"] for b in nbad})
+    small = [cjobs[j] for j, v in sorted(cby.items()) if v["nsub"] <= 8][: (25 if quick else 120)]
+    _, rmc = run_construct(sc, ccases, small, timeout=3000, tag="lconsmc", mc=True) if small else ([], TlcResult())
+    if cdrift:
+        rep.note("DRIFT: the DFA lox built is not the one LexConstruct derives from lox's own NFA for %d mode(s), e.g. %s: %s" % (
+            len(cdrift), cdrift[0][0]["id"], ",".join(cdrift[0][1])))
+    if ndrift:
+        rep.note("DRIFT: the NFA lox built does not denote the rules (NFAProduct) for %d specification(s), e.g. %s: %s" % (
+            len(ndrift), ndrift[0], json.dumps(nbad[0])[:300]))
     rep.coverage = {
+        "construct_jobs": len(cjobs), "construct_drift": len(cdrift), "construct_merging_jobs": len([1 for v in cby.values() if v["merged"]]),
+        "nfaproduct_jobs": njobs_rules, "nfaproduct_states": rnp.distinct, "nfaproduct_drift": len(ndrift),
+        "construct_all_orders_jobs": len(small), "construct_all_orders_states": rmc.distinct,
         "programs": len(tcases), "disagreements_checked": len(tcases) + len(jobs) + ncodec,
         "evaluations": len(tcases) + ncodec, "distinct_nontrivial": len(tcases),
         "rule": "accepted parser specifications (curated + random, with and without _onBounds) and lexer specifications (greedy, "
@@ -136,7 +181,8 @@ def c10(tier):
                 "plus %d TLC-enumerated row sequences through the real codec; every case is a distinct specification" % ncodec,
         "parser_specs": len([1 for k, _ in owners if k == "p"]), "lexer_specs": len([1 for k, _ in owners if k == "l"]),
         "codec_cases": ncodec, "product_states": rp_.distinct, "product_jobs": len(jobs),
-        "states": r.distinct + rp_.distinct + rc.distinct, "transitions": r.states + rp_.states + rc.states,
+        "states": r.distinct + rp_.distinct + rc.distinct + rcons.distinct + rnp.distinct + rmc.distinct,
+        "transitions": r.states + rp_.states + rc.states + rcons.states + rnp.states + rmc.states,
         "samples": [{"id": tcases[0]["id"], "actions": tcases[0]["pt"]["actions"][:40]},
                     {"id": tcases[-1]["id"], "mode0": tcases[-1]["lt"][0][:40] if tcases[-1]["lt"] else []}],
     }
